@@ -1088,6 +1088,9 @@ impl<'a> Driver<'a> {
             }
         }
         let mut established = false;
+        // in half of the runs the cluster is idle during the phase: the minority's logs stay up to date, so only
+        // the lease (not the log check) stands between its (pre-)vote requests and a grant
+        let idle = self.rng.pm(500);
         for attempt in 0..6 {
             let target = self.trace.len() + 120 + attempt * 60;
             self.pump(target)?;
@@ -1107,6 +1110,18 @@ impl<'a> Driver<'a> {
             let mut majority = vec![l];
             majority.extend(voters.into_iter().take(need + extra));
             majority.sort_unstable();
+            if idle && self.rng.pm(400) {
+                // a follower of the majority restarts right before the phase: it knows its term but not its leader,
+                // and in an idle cluster only heartbeats will reach it
+                let followers: Vec<NodeId> = majority.iter().cloned().filter(|x| *x != l).collect();
+                if !followers.is_empty() {
+                    let f = *self.rng.pick(&followers);
+                    let keep = self.world.nodes[&f].disk.wq.len() as u32;
+                    self.act(Action::Crash { n: f, keep, torn: 0 })?;
+                    self.act(Action::Restart { n: f })?;
+                    self.fault("restart_majority_follower_before_lockstep");
+                }
+            }
             self.act(Action::Lockstep { majority: majority.clone() })?;
             if self.world.lockstep.is_some() {
                 established = true;
@@ -1122,9 +1137,6 @@ impl<'a> Driver<'a> {
         };
         let minority: Vec<NodeId> = ids.iter().filter(|n| !maj.contains(n) && self.world.nodes[n].started).cloned().collect();
         let rounds = self.rng.range(30, 120);
-        // in half of the runs the cluster is idle during the phase: the minority's logs stay up to date, so only
-        // the lease (not the log check) stands between its (pre-)vote requests and a grant
-        let idle = self.rng.pm(500);
         for _ in 0..rounds {
             self.act(Action::Lockstep { majority: maj.clone() })?;
             if self.world.lockstep.is_none() {
